@@ -9,3 +9,4 @@ from . import rank  # noqa: F401
 from . import split  # noqa: F401
 from . import format  # noqa: F401
 from . import intersect  # noqa: F401
+from . import traffic  # noqa: F401
